@@ -268,11 +268,13 @@ def run(facts, rep, tier):
             schema_args = [a for a in args if (c.ty(a.get("ty")) or "").replace("&", "").strip().endswith("schema::Schema")]
             if not name_args or not schema_args:
                 continue
-            if "elem<" not in cn5.r(schema_args[0]):
+            FOR_ELEM = "Iterator::next(IntoIterator::into_iter("  # the element of a `for` loop, as Canon renders it
+            sch_ = cn5.r(schema_args[0])
+            if "elem<" not in sch_ and FOR_ELEM not in sch_:
                 continue  # not a per-element conversion
             n_sites += 1
             nm = cn5.r(name_args[0])
-            ok = "elem<" in nm or nm == "Name::Unknown"
+            ok = "elem<" in nm or FOR_ELEM in nm or nm == "Name::Unknown"
             key = "%s->%s#%d" % (h["fn"], n["fn"].split("::")[-1], sum(1 for o in rep.obligations if o["key"].startswith("C02.W5/sibling-hint-distinct:%s->%s#" % (h["fn"], n["fn"].split("::")[-1]))))
             rep.ob("C02.W5", "sibling-hint-distinct:" + key, ok,
                    "the name hint depends on the element" if "elem<" in nm else "no name hint (Name::Unknown)" if ok else
